@@ -62,3 +62,8 @@ package xpush
 //@
 //@ func (*socket).RemovePipe
 //@   before call:close#2 assert s.failNoPeers && len(s.pipes) == 0 && held(s.Mutex)
+//@
+//@ func (*socket).Close
+//@   ghost was = s.closed at call:Lock#1
+//@   ensures was ==> result == protocol.ErrClosed
+//@   ensures !was ==> isnil(result) && s.closed && closed(s.closeQ)
